@@ -43,7 +43,7 @@ MANIFEST = {
             'every result variable leaves the inputs unchanged. The close/GC '
             'clause over disk-backed files is NOT claimed (netCDF-C handle '
             'recycling and GC schedules cannot be encoded).'
-            ' Also: IOAPI windows leave the source\'s origin/levels/dimensions unchanged (array-valued attributes included); getTimes leaves TFLAG and CF time coordinates unchanged.',
+            ' Also: IOAPI windows leave the source\'s origin/levels/dimensions unchanged (array-valued attributes included); getTimes leaves TFLAG and CF time coordinates unchanged; mask(where=) on a variable that already has masked cells; boolean-mask selections.',
     'note': 'Trusted: z3, numpy memory model (real numpy). Clause on '
             'close()/__del__ interleavings of disk-backed files is outside '
             'this technique (FFI + GC nondeterminism) and is not claimed.',
